@@ -14,13 +14,17 @@ use std::collections::BTreeMap;
 use std::num::{NonZeroU8, NonZeroUsize};
 use std::time::Duration;
 
+fn one() -> i32 {
+    1
+}
+
 #[derive(Clone, Debug, serde::Serialize, serde::Deserialize)]
 pub enum Op {
     Announce { from: u16, to: u16 },
     Partition { groups: Vec<Vec<u16>> },
     Heal,
     Crash { node: u16, save: bool },
-    Restart { node: u16, restore: bool, announce_to: u16 },
+    Restart { node: u16, restore: bool, announce_to: u16, #[serde(default = "one")] gen_delta: i32 },
     Leave { node: u16 },
     Stall { node: u16, ms: u64 },
     Gossip { node: u16 },
@@ -112,7 +116,7 @@ pub fn gen_case(seed: u64, tier: Tier) -> (P, Vec<(u64, Op)>) {
                 let a = node(&mut s);
                 let save = s.chance(1, 2);
                 let back = t + s.range(period / 2 + 1, 10 * period);
-                ops.push((back, Op::Restart { node: a, restore: save, announce_to: node(&mut s) }));
+                ops.push((back, Op::Restart { node: a, restore: save, announce_to: node(&mut s), gen_delta: *s.pick(&[1i32, 1, 1, 0, -1, 3]) }));
                 Op::Crash { node: a, save }
             }
             2 => Op::Leave { node: node(&mut s) },
@@ -172,9 +176,11 @@ pub fn execute(p: &P, ops: &[(u64, Op)], seed: u64) -> RunOut {
                         }
                     }
                 }
-                Op::Restart { node, restore, announce_to } => {
+                Op::Restart { node, restore, announce_to, gen_delta } => {
                     if !w.alive(*node) {
-                        let gen = w.gens[World::idx(*node)] + 1;
+                        // usually the next generation; sometimes the very same identity or an older
+                        // one (a process restarted from an old image)
+                        let gen = (w.gens[World::idx(*node)] as i64 + *gen_delta as i64).max(0) as u32;
                         w.spawn(*node, gen);
                         w.stats.inc("fault_restart");
                         if *restore {
